@@ -147,13 +147,32 @@ def explore(run, focus, n_random, hosts=("plain",), malformed_rate=0.0, exhausti
         if focus in ("C22", "C23") and (run.evaluations // (2 * len(hosts))) % 3 == 0:
             # decorated handlers on a host without instrumentation
             host, spied = ("plain", True) if host == "plain" else ("queued-off", True)
-        if host in ("queued", "queued-off") and src == "random" and (run.evaluations // 7) % 4 == 0:
+        if focus == "C23" and src == "random" and (run.evaluations // 5) % 5 == 2 and mal is None:
+            c.same_names = True                   # all state functions carry the same __name__ (stamped out by one closure factory)
+            run.count("every state function has the same __name__")
+        if focus in ("C01", "C02", "C03", "C24") and not spied and src == "random" and (run.evaluations // 5) % 6 == 1:
+            c.node_style = True                   # states are bound methods of one function on different objects
+            run.count("states are the same method bound to different objects")
+        if host in ("queued", "queued-off") and src == "random" and (run.evaluations // 7) % 4 == 0 and not getattr(c, "node_style", False) \
+                and not getattr(c, "same_names", False):
             c.parent_via_callback = True        # handlers in the register_parent style asking `chart.parent_callback()`
             run.count("handlers ask the chart for their parent (parent_callback without argument)")
-        real, hsm, fns = charts.run_real(c, ops, host=host, spied=spied)
+        if focus in ("C01", "C03") and src == "random" and mal is None and (run.evaluations // 3) % 5 == 1:
+            c.silent_actions = True               # entry actions and transition-less init actions end with a bare `return`
+            run.count("entry / init actions that return no status")
+        if focus == "C24" and src == "random" and (run.evaluations // 3) % 5 == 2:
+            # user signals whose names contain braces, percent signs, blanks ...: a name is only a name
+            charts.SIGNAL_NAMES = [charts.ODD_SIGNAL_NAMES[(run.evaluations + k) % len(charts.ODD_SIGNAL_NAMES)] for k in range(c.nsig)]
+            run.count("user signals with odd names (braces, %, blanks)")
+        try:
+            real, hsm, fns = charts.run_real(c, ops, host=host, spied=spied)
+        finally:
+            odd_names, charts.SIGNAL_NAMES = charts.SIGNAL_NAMES, None
         model = mo.split(" | ")
         spec = so.split(" | ")
         cj = case_json(c, ops, {"host": host, "spied": spied, "malformed": mal})
+        if odd_names:
+            cj["signal_names"] = odd_names
         # ---- tie: complete call trace, every op ----
         ok = len(real) == len(model) and all(same_step(m, r) for m, r in zip(model, real))
         run.traces_validated += 1
@@ -162,6 +181,10 @@ def explore(run, focus, n_random, hosts=("plain",), malformed_rate=0.0, exhausti
             run.disagree("hsm full call trace", cj, model, real)
         # ---- oracle ----
         interesting = oracle(run, focus, c, ops, real, spec, cj, mal)
+        if focus == "C22":
+            for idx, a, what in getattr(hsm, "_vp_identity", []):
+                run.violate("C22/child_state-not-a-state-of-the-chart", "child_state(%d) returned %s, which is none of the state functions the chart "
+                            "was built from (host %s, %s)" % (a, what, host, "spied" if spied else "not spied"), cj_upto(cj, idx))
         if focus in ("C22", "C23") and mal is None:
             interesting = name_oracle(run, focus, c, ops, real, hsm, cj, host, spied) or interesting
         if focus == "C22" and mal is None:
@@ -315,10 +338,11 @@ def name_oracle(run, focus, c, ops, real, hsm, cj, host, spied):
         if idx >= len(names) or idx >= len(real):
             break
         r = parse(real[idx])
-        if r["kind"] != "ok":
+        if r["kind"] not in ("ok", "assert"):
             break
+        # (a child_state query the chart refuses - AssertionError, which the caller may catch - leaves the names as they were too)
         cur = int(r["state"])
-        want = "s%d" % cur
+        want = "state" if getattr(c, "same_names", False) else "s%d" % cur
         nm = names[idx]
         is_query = o in (2, 3)
         if focus == "C22" and not is_query:
@@ -637,14 +661,103 @@ def explore_super_none(run, n, strict=True):
         run.case(cj, nontrivial=True)
 
 
+def source_depth_literals(lo=600, hi=150000):
+    """integer literals of hsm.py between lo and hi: a bound the event processor may (now) put on a search or a path"""
+    import ast
+    src = open(mhsm.__file__).read()
+    return sorted({n.value for n in ast.walk(ast.parse(src)) if isinstance(n, ast.Constant) and isinstance(n.value, int)
+                   and not isinstance(n.value, bool) and lo < n.value <= hi})
+
+
+def explore_literal_depths(run, focus):
+    """sizes driven by the source: for every integer literal L of hsm.py in (600, 150000] a chain of L + 50 nested states -
+    start_at the innermost, an event only the outermost state handles, an event nobody handles, queries about the outermost
+    states (oracle only: the outcome is computed here, not by the model). On the pinned source there is no such literal (the
+    largest are 250 and 500, covered by the deep-chain cases of the tie)"""
+    for L in source_depth_literals():
+        D = L + 50
+        parent = {i: i - 1 for i in range(1, D + 1)}
+        c = charts.GenChart(D, parent, {i: {} for i in range(1, D + 1)}, {}, nsig=2)
+        c.react[1][0] = ("H",)
+        ops = [(0, D), (1, 0), (1, 1), (2, 1), (3, 1), (1, 0)]
+        saved = charts.CALL_LIMIT
+        charts.CALL_LIMIT = 20 * D
+        try:
+            out, hsm, fns = charts.run_real(c, ops, host="plain")
+        finally:
+            charts.CALL_LIMIT = saved
+        run.traces_validated += 1
+        run.count("chain of %d nested states (source literal %d + 50)" % (D, L))
+        cj = {"what": "literal-depth", "depth": D, "literal": L, "ops": ops}
+        want_kinds = ["ok", "ok", "ok", "ok", "ok", "ok"]
+        got = [parse(o) for o in out]
+        problem = None
+        if [g["kind"] for g in got] != want_kinds:
+            problem = "the ops ended with %s" % [o.split(" log=")[0][:40] for o in out]
+        else:
+            entered = [x for x in got[0]["log"] if x.endswith(".en")]
+            offered = [x for x in got[1]["log"] if x.endswith(".u0")]
+            if any(g["state"] != str(D) for g in got):
+                problem = "the chart did not stay in the innermost state: %s" % [g["state"] for g in got]
+            elif len(entered) != sum(1 for i in range(1, D + 1) if c.entryh[i]) or len(offered) != D or offered[0] != "%d.u0" % D or offered[-1] != "1.u0":
+                problem = "start_at entered %d states, E0 was offered to %d states (first %s, last %s)" % (len(entered), len(offered), offered[:1], offered[-1:])
+            elif got[3]["res"] != "1" or got[4]["res"] != "2":
+                problem = "is_in(outermost) = %s, child_state(outermost) = %s" % (got[3]["res"], got[4]["res"])
+        if problem:
+            run.violate("%s/deep-chain-%d" % (focus, D), "a chain of %d nested states (hsm.py contains the literal %d): %s" % (D, L, problem), cj)
+        run.case(cj, nontrivial=True)
+
+
+def explore_guard_none(run, n):
+    """C24, a fourth slip (oracle only): a guarded state declines an event (UNHANDLED) and has no answer when the processor then
+    asks it for its parent with the EMPTY signal (it answers the ordinary parent search, entry, exit and init properly, so it can
+    be entered). Offering it the guarded event must raise HsmTopologyException - no other exception, no normal return"""
+    rng = run.rng
+    for _ in range(n):
+        c = charts.gen_chart(rng, nmax=8)
+        bad = rng.randrange(1, c.n + 1)
+        k = rng.randrange(c.nsig)
+        c.react[bad][k] = ("U",)
+        c.empty_none = {bad}
+        # start in the guarded state or below it, where nothing answers the event before it reaches the guard
+        cands = [j for j in [bad] + c.desc(bad) if all(k not in c.react[x] for x in c.path(j)[:c.path(j).index(bad)])]
+        start = rng.choice(cands)
+        ops = [(0, start), (1, k)]
+        host = rng.choice(["plain", "instr", "queued", "queued-off"])
+        out, hsm, fns = charts.run_real(c, ops, host=host, spied=host != "plain" and rng.random() < 0.5)
+        cj = case_json(c, ops, {"host": host, "empty_none": [bad]})
+        run.traces_validated += 1
+        run.count("guarded state without an answer to the EMPTY re-query")
+        if len(out) < 2 or not parse(out[0])["kind"] == "ok":
+            run.case(cj, nontrivial=False)      # the start itself does not settle below the guard (initial transitions lead elsewhere)
+            continue
+        r0 = parse(out[0])
+        path_now = c.path(int(r0["state"]))
+        reaches = bad in path_now and all(k not in c.react[x] for x in path_now[:path_now.index(bad)])
+        if reaches and not out[1].startswith("raise"):
+            run.violate("C24/no-raise/none-status/empty-requery", "state %d declines E%d (UNHANDLED) and returns no status to the EMPTY signal "
+                        "that follows: dispatch ended with %r instead of raising HsmTopologyException" % (bad, k, out[1].split(" log=")[0]), cj)
+        run.case(cj, nontrivial=reaches)
+
+
 def replay(case):
-    c = charts.GenChart.from_json(case["case"]["chart"] if "case" in case else case["chart"])
     cc = case.get("case", case)
+    if cc.get("what") == "literal-depth":
+        D = cc["depth"]
+        c = charts.GenChart(D, {i: i - 1 for i in range(1, D + 1)}, {i: {} for i in range(1, D + 1)}, {}, nsig=2)
+        c.react[1][0] = ("H",)
+        charts.CALL_LIMIT = 20 * D
+        out = charts.run_real(c, [tuple(o) for o in cc["ops"]], host="plain")[0]
+        print("impl :", [o.split(" log=")[0] + " (%d handler calls)" % (o.count(",") + 1) for o in out])
+        return 0
+    c = charts.GenChart.from_json(case["case"]["chart"] if "case" in case else case["chart"])
     ops = [tuple(o) for o in cc["ops"]]
     if "orthogonal" in cc:
         print("two-chart case: re-run the check with the recorded VERIF_SEED; chart A:", cc["chart"], "ops", cc["ops"], "chart B:", cc["orthogonal"],
               "triggers", cc["triggers"])
         return 0
+    if "empty_none" in cc:
+        c.empty_none = set(cc["empty_none"])
     if "super_none" in cc:
         if cc.get("after_exit"):
             c.super_none_after_exit = set(cc["super_none"])
@@ -661,7 +774,9 @@ def replay(case):
         print("impl :", charts.run_real(c, ops, host=cc.get("host", "plain"))[0])
         print("model:", leanrun.run_driver([c.encode(ops, family="hsmf")])[0].split(" | "))
         return 0
+    charts.SIGNAL_NAMES = cc.get("signal_names")
     real, _, _ = charts.run_real(c, ops, host=cc.get("host", "plain"), spied=cc.get("spied", False))
+    charts.SIGNAL_NAMES = None
     model = batch([(c, ops)], "hsm")[0].split(" | ")
     spec = batch([(c, ops)], "hsmspec")[0].split(" | ")
     for i, o in enumerate(ops):
